@@ -4,7 +4,7 @@
   {"m": [[key, value], ...]} ordered mappings.
 -/
 import Lean.Data.Json
-import BVM.Model.Expand
+import BVM.Model.V2
 open Lean BVM
 
 namespace Drv
@@ -37,8 +37,8 @@ partial def jsonOfY : Y → Json
 
 def kvsOfJson (j : Json) : KVs := match yOfJson j with | .map m => m | _ => []
 
-def worldOf (j : Json) : World :=
-  let dirs : List (List (String × Y)) := match j.getObjVal? "dirs" with
+def worldOfK (j : Json) (key : String) : World :=
+  let dirs : List (List (String × Y)) := match j.getObjVal? key with
     | .ok (.arr ds) => ds.toList.map fun d => match d with
       | .arr fs => fs.toList.map fun f => match f with
         | .arr #[.str n, c] => (n, yOfJson c)
@@ -47,6 +47,8 @@ def worldOf (j : Json) : World :=
     | _ => []
   let ign := (j.getObjValAs? Bool "ignore").toOption.getD false
   { dirs := dirs, ignoreNotFound := ign }
+
+def worldOf (j : Json) : World := worldOfK j "dirs"
 
 def showFR (r : FR KVs) : String :=
   match r with
@@ -64,6 +66,10 @@ def handleFront (j : Json) : Option String :=
   match (j.getObjValAs? String "op").toOption.getD "" with
   | "expand3" =>
     some (showFR (expand3 (worldOf j) (fuelOf j) (kvsOfJson ((j.getObjVal? "doc").toOption.getD .null))))
+  | "expand2" =>
+    some (showFR (expand2 (worldOfK j "dirs2") (worldOfK j "dirs3") (fuelOf j) (kvsOfJson ((j.getObjVal? "doc").toOption.getD .null))))
+  | "convert2" =>
+    some (showFR (convert2 (worldOfK j "dirs2") (fuelOf j) (kvsOfJson ((j.getObjVal? "doc").toOption.getD .null))))
   | "patch" =>
     let v3 := (j.getObjValAs? Bool "v3").toOption.getD true
     let b := yOfJson ((j.getObjVal? "base").toOption.getD .null)
